@@ -150,6 +150,28 @@ def boundary (rest : Str) : Prop := rest = [] ∨ ∃ c t, rest = c :: t ∧ (c 
 
 def dotted (segs : List Str) : Str := (segs.intersperse ['.']).flatten
 
+/-! ### decimal / exponent numbers, Boolean, null, geography -/
+/-- exponent part: absent, or `e` / `E`, an optional sign, and w+1 digits -/
+inductive Expo
+  | none
+  | some (upper : Bool) (sg : Sign) (w n : Nat)
+def Expo.text : Expo → Str
+  | .none => []
+  | .some u sg w n => (if u then 'E' else 'e') :: sg.text ++ pad (w + 1) n
+def Expo.ok : Expo → Prop
+  | .none => True
+  | .some _ _ w n => n < 10 ^ (w + 1)
+/-- decimalValue: optional sign, digits, then a fraction and / or an exponent (at least one of the two) -/
+def decimalText (sg : Sign) (wi ni : Nat) (fr : Option (Nat × Nat)) (ex : Expo) : Str :=
+  sg.text ++ pad (wi + 1) ni ++ (match fr with | none => [] | some (wf, nf) => '.' :: pad (wf + 1) nf) ++ ex.text
+
+/-- a keyword in any ASCII letter case: `up i` chooses the case of the i-th letter -/
+def caseWord (up : Nat → Bool) (w : Str) : Str := (w.zipIdx).map (fun p => if up p.2 then (if 'a' ≤ p.1 ∧ p.1 ≤ 'z' then Char.ofNat (p.1.toNat - 32) else p.1) else p.1)
+
+/-- geography'...' with the content's quotes doubled -/
+def geoText (up : Nat → Bool) (content : Str) : Str :=
+  caseWord up "geography".toList ++ '\'' :: content.flatMap (fun c => if c = '\'' then ['\'', '\''] else [c]) ++ ['\'']
+
 /-! ### identifiers (odataIdentifier with dotted namespaces; ASCII) -/
 def isStartA (c : Char) : Bool := c == '_' || ('a' ≤ c && c ≤ 'z') || ('A' ≤ c && c ≤ 'Z')
 def isWordA (c : Char) : Bool := isStartA c || ('0' ≤ c && c ≤ '9')
